@@ -36,6 +36,9 @@ theorem minLen_le {E : Env} (hE : EnvOK E) (s : Sch) (v : Val) (hc : Canon E s v
   | uslice s _ =>
     cases v <;> simp [Canon, canon] at hc
     simp [Sch.minLen, enc, u64le_length]
+  | aslice s _ =>
+    cases v <;> simp [Canon, canon] at hc
+    simp [Sch.minLen, enc, u64le_length]
   | ext n => exact (hE n).minLen_le v hc
 
 /-- **Round trip.** Decoding the encoding of a canonical value (followed by anything)
@@ -84,6 +87,15 @@ theorem c11_roundtrip_gen {E : Env} (hE : EnvOK E) (st : Bool) (k : Nat) (s : Sc
     rw [readU64_append hc.1.1]
     simp only
     rw [if_neg (by omega)]
+    rw [decRep_roundtrip (fun w hw r => ih hwf.1 w r (hc.2 w hw))]
+    rfl
+  | aslice s ih =>
+    cases v <;> simp [Canon, canon] at hc
+    rename_i vs
+    simp only [Sch.wf, Bool.and_eq_true, decide_eq_true_eq] at hwf
+    simp only [decG, enc, List.append_assoc]
+    rw [readU64_append hc.1]
+    simp only
     rw [decRep_roundtrip (fun w hw r => ih hwf.1 w r (hc.2 w hw))]
     rfl
   | ext n => exact (hE n).roundtrip st k v rest hc
@@ -212,6 +224,23 @@ theorem c11_truncation_fails {E : Env} (hE : EnvOK E) (st : Bool) (k : Nat) (s :
           (fun w hw r => c11_roundtrip_gen hE st k s hwf.1 w r (hc.2 w hw))
           (fun w hw p q hpq hq => ih hwf.1 w (hc.2 w hw) p q hpq hq) h2 hq
       rw [he]; exact ⟨_, rfl⟩
+  | aslice s ih =>
+    cases v <;> simp [Canon, canon] at hc
+    rename_i vs
+    simp only [Sch.wf, Bool.and_eq_true, decide_eq_true_eq] at hwf
+    simp only [enc] at h
+    simp only [decG]
+    rcases prefix_split h with ⟨q', h1, hq'⟩ | ⟨p', h1, h2⟩
+    · have hl := prefix_len_lt h1 hq'
+      rw [u64le_length] at hl
+      rw [readU64_short hl]; exact ⟨_, rfl⟩
+    · subst h1
+      rw [readU64_append hc.1]
+      simp only
+      obtain ⟨e, he⟩ := decRep_trunc (f := decG E st k s) (g := enc E s)
+          (fun w hw r => c11_roundtrip_gen hE st k s hwf.1 w r (hc.2 w hw))
+          (fun w hw p q hpq hq => ih hwf.1 w (hc.2 w hw) p q hpq hq) h2 hq
+      rw [he]; exact ⟨_, rfl⟩
   | ext n => exact (hE n).trunc st k v p q hc h hq
 
 
@@ -297,6 +326,22 @@ theorem c11_decode_canon {E : Env} (hE : EnvOK E) (st : Bool) (k : Nat) (s : Sch
           exact ⟨⟨by omega, by omega⟩, hall⟩
         · cases h
     · cases h
+  | aslice s ih =>
+    simp only [decG] at h
+    split at h
+    · rename_i n r1 h1
+      obtain ⟨hb, hn⟩ := readU64_ok h1
+      simp only [okList] at h
+      split at h
+      · rename_i vs r2 h2
+        injection h with h; injection h with e1 e2; subst e1; subst e2
+        obtain ⟨hl, hall, cs, hcs⟩ := decRep_sound (P := fun v => Canon E s v)
+          (fun bs v r hf => let ⟨c, cs, hb, _⟩ := ih bs v r hf; ⟨c, cs, hb⟩) h2
+        refine ⟨?_, u64le n ++ cs, by rw [hb, hcs]; simp, by simp [Sch.minLen, u64le_length]⟩
+        simp only [Canon, canon, Bool.and_eq_true, decide_eq_true_eq, List.all_eq_true]
+        exact ⟨by omega, hall⟩
+      · cases h
+    · cases h
   | ext n => exact (hE n).dec_sound st k bs v rest h
 
 /-- what the strict decoder accepts re-encodes to exactly the bytes consumed -/
@@ -373,6 +418,21 @@ theorem strict_reencode {E : Env} (hE : EnvOK E) (k : Nat) (s : Sch)
           rw [decRep_enc (g := enc E s) (fun bs v r hf => ih bs v r hf) h2, hl, hb]
         · cases h
     · cases h
+  | aslice s ih =>
+    simp only [decStrict, decG] at h
+    split at h
+    · rename_i n r1 h1
+      obtain ⟨hb, hn⟩ := readU64_ok h1
+      simp only [okList] at h
+      split at h
+      · rename_i vs r2 h2
+        injection h with h; injection h with e1 e2; subst e1; subst e2
+        have hl := (decRep_sound (P := fun _ => True) (fun bs v r hf =>
+          let ⟨_, cs, hb, _⟩ := c11_decode_canon hE true k s bs v r hf; ⟨trivial, cs, hb⟩) h2).1
+        simp only [enc, List.append_assoc]
+        rw [decRep_enc (g := enc E s) (fun bs v r hf => ih bs v r hf) h2, hl, hb]
+      · cases h
+    · cases h
   | ext n => exact (hE n).strict_enc k bs v rest h
 
 /-- the strict decoder is a restriction of the real one -/
@@ -433,6 +493,15 @@ theorem strict_sub_real {E : Env} (hE : EnvOK E) (k : Nat) (s : Sch)
         · rename_i vs r2 h2
           rw [decRep_mono (f' := decG E false k s) (fun bs r hf => ih bs r hf) h2]; exact h
         · cases h
+    · cases h
+  | aslice s ih =>
+    simp only [decG] at h ⊢
+    split at h
+    · simp only [okList] at h ⊢
+      split at h
+      · rename_i vs r2 h2
+        rw [decRep_mono (f' := decG E false k s) (fun bs r hf => ih bs r hf) h2]; exact h
+      · cases h
     · cases h
   | ext n => exact (hE n).strict_lax k bs r h
 
